@@ -41,11 +41,23 @@ ROUTES = ('gen', 'mul', 'ex', 'sum_t', 'sum_s')
 
 # ======================================================================================== plan ====
 
+def _chunks(lo, hi, size=1024):
+    """[lo, hi] inclusive in pieces of about `size` scalars (a short tail is merged into the last piece)."""
+    out = []
+    while lo <= hi:
+        e = lo + size - 1
+        if hi - e < size // 4:
+            e = hi
+        out.append((lo, min(e, hi)))
+        lo = e + 1
+    return out
+
+
 def plan(tier, seed):
     quick = tier == 'quick'
     units = []
     W = 1024 if quick else 16384
-    chunk = 1024
+    # weights are measured CPU seconds per unit (rounded), used only for load balancing
     for fl in ('asan', 'asan-amd64'):
         nint = 3 if quick else 12
         for c in range(nint):
@@ -57,40 +69,35 @@ def plan(tier, seed):
         nm = 3 if quick else 12
         for c in range(nm):
             units.append({'kind': 'modp', 'flavour': fl, 'lo': c, 'step': nm, 'rand': 400 if quick else 5000,
-                          'heavy': 60 if quick else 800, 'weight': 2 if quick else 6})
+                          'heavy': 60 if quick else 800, 'weight': 1 if quick else 5})
             units.append({'kind': 'modn', 'flavour': fl, 'lo': c, 'step': nm, 'rand': 400 if quick else 4000,
-                          'heavy': 50 if quick else 600, 'weight': 2 if quick else 6})
+                          'heavy': 50 if quick else 600, 'weight': 1 if quick else 4})
         npt = 3 if quick else 12
         for c in range(npt):
-            units.append({'kind': 'point', 'flavour': fl, 'part': c, 'bases': 2 if quick else 8, 'weight': 2 if quick else 6})
+            units.append({'kind': 'point', 'flavour': fl, 'part': c, 'bases': 2 if quick else 8, 'weight': 1 if quick else 6})
         # dense scalar neighbourhoods, every route
-        ranges = []
-        for lo in range(0, W + 1, chunk):
-            ranges.append(('0', lo, min(lo + chunk - 1, W)))
-        for lo in range(N - W, N + W + 1, chunk):
-            ranges.append(('n', lo, min(lo + chunk - 1, N + W)))
-        for lo in range(R - W, R, chunk):
-            ranges.append(('2^256', lo, min(lo + chunk - 1, R - 1)))
+        ranges = [('0', lo, hi) for lo, hi in _chunks(0, W)]
+        ranges += [('n', lo, hi) for lo, hi in _chunks(N - W, N + W)]
+        ranges += [('2^256', lo, hi) for lo, hi in _chunks(R - W, R - 1)]
         if not quick:
             for name, c0 in (('p', P), ('2^255', 1 << 255), ('(n+1)/2', (N + 1) // 2), ('2^256-n', R - N), ('2^128', 1 << 128)):
-                for lo in range(c0 - 2048, c0 + 2048, chunk):
-                    ranges.append((name, lo, lo + chunk - 1))
+                ranges += [(name, lo, hi) for lo, hi in _chunks(c0 - 2048, c0 + 2047)]
         for ri, (name, lo, hi) in enumerate(ranges):
             for route in ROUTES:
                 variants = [0] if (quick or route == 'gen') else [0, 1]
                 for v in variants:
                     units.append({'kind': 'dense', 'flavour': fl, 'route': route, 'near': name, 'lo': '%x' % lo,
-                                  'hi': '%x' % hi, 'variant': v + ri, 'weight': 4})
+                                  'hi': '%x' % hi, 'variant': v + ri, 'weight': 2})
         # window boundaries, specials, random scalars
-        ns = 2 if quick else 16
+        ns = 6 if quick else 40
         for c in range(ns):
-            units.append({'kind': 'scal', 'flavour': fl, 'part': c, 'parts': ns, 'rand': 40 if quick else 2500,
-                          'weight': 4 if quick else 10})
+            units.append({'kind': 'scal', 'flavour': fl, 'part': c, 'parts': ns, 'rand': 12 if quick else 250,
+                          'weight': 4 if quick else 12})
         units.append({'kind': 'misc', 'flavour': fl, 'weight': 1})
         # every entry of the fixed-base table (37 windows x 64 multiples), as data and through single-digit scalars
         nt = 4
         for c in range(nt):
-            units.append({'kind': 'table', 'flavour': fl, 'part': c, 'parts': nt, 'weight': 3})
+            units.append({'kind': 'table', 'flavour': fl, 'part': c, 'parts': nt, 'weight': 3 if quick else 5})
     return units
 
 
